@@ -193,3 +193,62 @@ def mx1(cfg):
 
 def mx2(cfg):
     return run(cfg)[1]
+
+
+def mx3(cfg):
+    """MX-3: one operation = one critical section"""
+    res = RuleResult('MX-3', 'every member function of mutex_db is ONE critical section: on no path does it take the mutex more than once - neither by constructing a second lock object nor by calling another member function that locks (a lookup followed by a separately locked update is a check-then-act race: two concurrent inserts of one absent key both report success)')
+    fns = [f for f in cfg.functions if f.cls.startswith('unodb::mutex_db<') and f.blocks and not f.d.get('lambda') and not (f.d.get('ctor') or f.d.get('dtor') or f.d.get('static'))]
+    locking = set()
+    for f in fns:
+        for b, i, e in f.elements():
+            if e.get('k') == 'decl':
+                for v in e['vars']:
+                    if LOCK_TYPES.search(v.get('t') or '') and 'init' in v and _lock_ctor_on_mutex(f, v['init']):
+                        locking.add(f.sig)
+            if e.get('k') == 'call' and e.get('ck') == 'member' and e.get('name') == 'lock' and e.get('obj') is not None and _is_mutex_member(f, e['obj']):
+                locking.add(f.sig)
+    # transitive: members that call locking members
+    changed = True
+    while changed:
+        changed = False
+        for f in fns:
+            if f.sig in locking:
+                continue
+            for b, i, e in f.elements():
+                if e.get('k') == 'call' and e.get('cid') is not None and (f.callee_sig(e) or '') in locking:
+                    locking.add(f.sig)
+                    changed = True
+    for f in fns:
+        res.count('member functions')
+        res.functions.add(f.sig)
+        site = {}
+
+        def transfer(n, blk):
+            for e in blk['elems']:
+                k = e.get('k')
+                inc = False
+                if k == 'decl':
+                    for v in e['vars']:
+                        if LOCK_TYPES.search(v.get('t') or '') and 'init' in v and _lock_ctor_on_mutex(f, v['init']):
+                            inc = True
+                elif k == 'call':
+                    if e.get('ck') == 'member' and e.get('name') == 'lock' and e.get('obj') is not None and (_is_mutex_member(f, e['obj']) or (LOCK_TYPES.search(e.get('cls') or '') is not None)):
+                        inc = True
+                    elif e.get('ck') == 'ctor' and LOCK_TYPES.search(e.get('cls') or '') and e.get('args') and _is_mutex_member(f, e['args'][0]):
+                        # an unnamed temporary lock object is a (useless) critical section of its own; named ones are counted at the decl
+                        pass
+                    elif e.get('cid') is not None and (f.callee_sig(e) or '') in locking and (f.callee_sig(e) or '') != f.sig:
+                        inc = True
+                if inc:
+                    n = min(n + 1, 2)
+                    if n == 2 and 'second' not in site:
+                        site['second'] = e.get('loc')
+            return n
+        forward(f, 0, transfer, None, max, key=lambda s: s)
+        ok = 'second' not in site
+        res.ob(ok, {'rule': 'MX-3', 'function': sh(f.name)[:80], 'site': fileline(f.loc), 'verdict': 'one critical section' if ok else 'VIOLATION'})
+        if not ok:
+            res.find(f, site['second'], '%s takes the index mutex a second time on one path: the operation is split into two critical sections, so another thread can run between them (e.g. both of two concurrent inserts of the same absent key pass the lookup and both report success)' % f.short, key='MX-3:%s' % f.short, config=cfg.name)
+    res.floor('member functions', 20)
+    return res
